@@ -130,6 +130,20 @@ let do_op (a : string list) : string =
       let c = getc x in let on = f.[1] = '1' in
       let (cl, er, re) = (match f.[0] with 'C' -> (on, c.c_error, c.c_resumed) | 'E' -> (c.c_closed, on, c.c_resumed) | _ -> (c.c_closed, c.c_error, on)) in
       ignore (do_step (OFlag (nk x, cl, er, re))); full 0
+  | "t13v", _ :: _ :: rest ->
+      let num k d = match kv rest k with Some s -> int_of_string s | None -> d in
+      let v = num "v" 34 and life = num "life" 360 and age = num "age" 0 in
+      let su = match kv rest "s" with Some s -> (try int_of_string ("0x" ^ s) with _ -> 0) | None -> 0x1301 in
+      let c = getc x in
+      let (maj, mi) = (try List.assoc v (List.map (fun (a, (b, c)) -> (int_of_z a, (b, c))) k_versions) with Not_found -> (z_of_int 3, z_of_int 4)) in
+      let now = int_of_z !st.s_now in
+      (match c.c_cipher with
+       | None -> "t13v=-100:0"
+       | Some suite when now - age >= 0 ->
+           let zi i = z_of_hex (Printf.sprintf "%x" i) in
+           let p = { p_maj = maj; p_min = mi; p_cipher = z_of_int su; p_life = zi life; p_stamp = zi (now - age) } in
+           let (rc, err) = tls13_validate c suite p !st in Printf.sprintf "t13v=%d:%d" (int_of_z rc) (int_of_z err)
+       | _ -> "t13v=-100:0")
   | "tick", [_; d] -> ignore (do_step (OTick (z_of_hex (Printf.sprintf "%x" (int_of_string d))))); "tick=0"
   | "kadd", _ :: rest ->
       let b k = hexbyte (kv rest k) in let num k d = match kv rest k with Some s -> atoi s | None -> d in
